@@ -8,6 +8,7 @@ N1  ``return next((e for x in D if c), default)``           ->  ``for x in D: if
 N2  a list comprehension that calls a helper which must be run in place (a private helper or local closure with
     statement effects / loops)                              ->  the accumulator loop it abbreviates
 N4  ``for x in X: acc.append(x)``                               ->  ``acc.extend(X)``
+N15 search loop ``for x in D: if c: break / else: leave``, rest   ->  ``for x in D: if c: rest`` / ``leave``
 N14 ``for s in itertools.repeat(x, n): body``                      ->  ``for _ in range(n): s = x; body``
 N13 ``i = len(L); while i > 0: i -= 1; ... L[i] ...`` (and the forward form)  ->  ``for x in reversed(L)`` / ``for x in L``
 N12 ``yield from <pipeline>``                                      ->  ``for x in <pipeline>: yield x``
@@ -178,10 +179,31 @@ class _Ctx:
 
     # -- statements -------------------------------------------------------------------------------------
     def block(self, stmts: List[ast.stmt]) -> List[ast.stmt]:
+        stmts = self._search_else(list(stmts))
         out: List[ast.stmt] = []
         for st in stmts:
             out.extend(self.stmt(st))
         return out
+
+    @staticmethod
+    def _exits(stmts: List[ast.stmt]) -> bool:
+        return bool(stmts) and isinstance(stmts[-1], (ast.Return, ast.Raise))
+
+    def _search_else(self, stmts: List[ast.stmt]) -> List[ast.stmt]:
+        """N15  ``for x in D: if c: break`` / ``else: <leave>`` / ``<rest, ending in return>``   ->   ``for x in D: if c: <rest>`` / ``<leave>``
+        (a search loop: what follows the loop runs for the element at which the search stopped)"""
+        for i, st in enumerate(stmts):
+            if isinstance(st, ast.For) and st.orelse and self._exits(st.orelse) and len(st.body) == 1 and isinstance(st.body[0], ast.If) \
+                    and not st.body[0].orelse and len(st.body[0].body) == 1 and isinstance(st.body[0].body[0], ast.Break):
+                rest = stmts[i + 1:]
+                if self._exits(rest) and not any(isinstance(n, (ast.Break, ast.Continue)) for r in rest for n in ast.walk(r)):
+                    hit = ast.If(test=st.body[0].test, body=list(rest), orelse=[])
+                    ast.copy_location(hit, st.body[0])
+                    loop = ast.For(target=st.target, iter=st.iter, body=[hit], orelse=[])
+                    ast.copy_location(loop, st)
+                    ast.fix_missing_locations(loop)
+                    return stmts[:i] + [loop] + list(st.orelse)
+        return stmts
 
     def tmp(self) -> str:
         self.n += 1
